@@ -159,6 +159,10 @@ type SecureChannel struct {
 	// note: we only allow a single "open" request in flight at any point in time. The mutex is held for the entire
 	// duration of the "open" request.
 	openingInstance *channelInstance
+
+	// openingInstanceMu guards the openingInstance pointer: open() sets and
+	// clears it while the dispatcher reads it in readChunk.
+	openingInstanceMu sync.Mutex
 	openingMu       sync.Mutex
 
 	// errorCh receive dispatcher errors
@@ -256,6 +260,18 @@ func newSecureChannel(endpoint string, c *uacp.Conn, cfg *Config, kind channelKi
 
 func (s *SecureChannel) RemoteAddr() net.Addr {
 	return s.c.TCPConn.RemoteAddr()
+}
+
+func (s *SecureChannel) getOpeningInstance() *channelInstance {
+	s.openingInstanceMu.Lock()
+	defer s.openingInstanceMu.Unlock()
+	return s.openingInstance
+}
+
+func (s *SecureChannel) setOpeningInstance(instance *channelInstance) {
+	s.openingInstanceMu.Lock()
+	s.openingInstance = instance
+	s.openingInstanceMu.Unlock()
 }
 
 func (s *SecureChannel) getActiveChannelInstance() (*channelInstance, error) {
@@ -506,7 +522,8 @@ func (s *SecureChannel) readChunk() (*MessageChunk, error) {
 			return nil, ua.StatusBadDecodingError // todo(dh): check if this is the correct error
 		}
 
-		if s.openingInstance == nil {
+		opening := s.getOpeningInstance()
+		if opening == nil {
 			return nil, errors.Errorf("sechan: invalid state. openingInstance is nil.")
 		}
 
@@ -530,15 +547,15 @@ func (s *SecureChannel) readChunk() (*MessageChunk, error) {
 			if !ok {
 				return nil, ua.StatusBadCertificateInvalid
 			}
-			algo, err := uapolicy.Asymmetric(s.cfg.SecurityPolicyURI, s.openingInstance.sc.cfg.LocalKey, remoteKey)
+			algo, err := uapolicy.Asymmetric(s.cfg.SecurityPolicyURI, opening.sc.cfg.LocalKey, remoteKey)
 			if err != nil {
 				return nil, err
 			}
 
-			s.openingInstance.algo = algo
+			opening.algo = algo
 		}
 
-		decryptWith = s.openingInstance
+		decryptWith = opening
 	case "CLO":
 		return nil, io.EOF
 	case "MSG":
@@ -678,7 +695,7 @@ func (s *SecureChannel) open(ctx context.Context, instance *channelInstance, req
 		return err
 	}
 
-	s.openingInstance = newChannelInstance(s)
+	s.setOpeningInstance(newChannelInstance(s))
 	// s.openingInstance.secureChannelID = s.secureChannelID
 	// s.openingInstance.sequenceNumber = s.sequenceNumber
 	// s.openingInstance.securityTokenID = s.securityTokenID
@@ -696,7 +713,7 @@ func (s *SecureChannel) open(ctx context.Context, instance *channelInstance, req
 		if s.openingInstance == nil || s.openingInstance.state != channelActive {
 			debug.Printf("uasc %d: failed to open a new secure channel", s.c.ID())
 		}
-		s.openingInstance = nil
+		s.setOpeningInstance(nil)
 	}()
 
 	reqID := s.nextRequestID()
